@@ -66,6 +66,7 @@ type FuncCtx struct {
 	loopGuards []*loopGuard
 	ghostNames map[string]*Value
 	entryAlloc string
+	closures   []*closureFrame
 }
 
 type callSite struct {
@@ -232,6 +233,10 @@ func (fc *FuncCtx) prepare() {
 		case *ast.ForStmt, *ast.RangeStmt:
 			loopN++
 			fc.loopOrd[n] = loopN
+		case *ast.FuncLit:
+			// the closure handed to retry.RetryOnConflict is treated as a loop body
+			loopN++
+			fc.loopOrd[n] = loopN
 		case *ast.ReturnStmt:
 			retN++
 			fc.retOrd[x] = retN
@@ -308,6 +313,8 @@ func (fc *FuncCtx) prepare() {
 
 func loopHeader(fset *token.FileSet, n ast.Node) string {
 	switch x := n.(type) {
+	case *ast.FuncLit:
+		return "func literal"
 	case *ast.ForStmt:
 		s := "for"
 		if x.Init != nil {
@@ -932,7 +939,24 @@ func (fc *FuncCtx) toIface(v *Value, to *Shape) *Value {
 
 // ---------------------------------------------------------------- returns
 
+type closureFrame struct {
+	lit  *ast.FuncLit
+	rets []*State
+	name string // ghost name under which the returned value is stored in each return state
+}
+
 func (fc *FuncCtx) execReturn(x *ast.ReturnStmt, st *State) {
+	if n := len(fc.closures); n > 0 {
+		cf := fc.closures[n-1]
+		if len(x.Results) == 1 {
+			v := fc.eval(x.Results[0], st)
+			st.ghost[cf.name] = fc.convertTo(v, shErr)
+		} else if len(x.Results) != 0 {
+			fc.unsupp(x, "closure with several results")
+		}
+		cf.rets = append(cf.rets, st)
+		return
+	}
 	var vals []*Value
 	if len(x.Results) == 0 {
 		for _, r := range fc.results {
